@@ -126,7 +126,11 @@ func cmdVerify(args []string) {
 		if *dump != "" {
 			for _, o := range r.Obls {
 				if strings.Contains(o.Name, *dump) {
-					fmt.Println(o.Query(true))
+					if dumpQF {
+						fmt.Println(o.query(true, true))
+					} else {
+						fmt.Println(o.Query(true))
+					}
 					return
 				}
 			}
@@ -147,8 +151,7 @@ func cmdVerify(args []string) {
 				bad++
 				fmt.Printf("  FAIL %-8s %s  [%s %.2fs] %s  (%s)\n", o.Status, o.Name, o.Solver, o.Time, o.Text, o.Pos)
 				if *show {
-					m := modelFor(o, *timeout)
-					fmt.Println(trimModel(m))
+					fmt.Println(explainModel(o, *timeout))
 				}
 			}
 		}
@@ -177,3 +180,9 @@ func trimModel(m string) string {
 	}
 	return strings.Join(out, "\n")
 }
+
+func init() {
+	dumpQF = os.Getenv("GOCV_DUMPQF") != ""
+}
+
+var dumpQF bool
